@@ -84,6 +84,9 @@ AtPointN(s, p) ==
       \* SendErrorResponse is entered by the /error handler and by the inner FastInvoke goroutine (default error)
       [] p = "server.sendErrorResponse" -> Cardinality({c \in DOMAIN s.calls : s.calls[c].api = "error" /\ s.calls[c].st = "issued"})
                                            + Cardinality({k \in DOMAIN s.iv : s.iv[k].i = "deferr"})
+      \* the inner FastInvoke goroutine asks for the internal state while it builds its completion message (a driver-side
+      \* point: the harness wraps the state getter it hands to the server)
+      [] p = "server.stateGetter"      -> Cardinality({k \in DOMAIN s.iv : s.iv[k].i \in {"sendok", "sendfail"}})
       [] p = "init.afterRegisterCount" -> IF s.pcI.pc = "d2" /\ Len(s.toExec) = Cardinality(s.extFiles) THEN 1 ELSE 0
       [] OTHER -> 0
 \* the step behind p may be taken by a goroutine at p only if not all goroutines at p are held
@@ -429,7 +432,7 @@ FiiDefaultErrorDo(s, k) ==
 
 \* completion message into the buffered InvokeDoneChan (blocks while it is full)
 \* (tagged with the id of the invocation it completes: tree after the fix of F-C08-4)
-FiiSendDoneEn(s, k) == s.iv[k].i \in {"sendok", "sendfail"} /\ s.srv.done = "empty"
+FiiSendDoneEn(s, k) == s.iv[k].i \in {"sendok", "sendfail"} /\ s.srv.done = "empty" /\ Free(s, "server.stateGetter")
 FiiSendDoneDo(s, k) == [s EXCEPT !.srv.done = IF s.iv[k].i = "sendok" THEN "ok" ELSE "fail", !.srv.doneId = s.iv[k].id,
                                  !.iv[k].i = "off"]
 
